@@ -44,7 +44,8 @@ const TRACED: &str = "mkdir,mkdirat,open,openat,creat,write,pwrite64,writev,fchm
 impl C15 {
     pub fn new() -> Self {
         let repo = std::env::var("QV_REPO").unwrap_or_else(|_| "/repo".to_owned());
-        let target = std::env::var("QV_CLI_TARGET_DIR").unwrap_or_else(|_| "/verif/.work/cli-target".to_owned());
+        let target = std::env::var("QV_CLI_TARGET_DIR")
+            .unwrap_or_else(|_| concat!(env!("CARGO_MANIFEST_DIR"), "/../.work/cli-target").to_owned());
         fs::create_dir_all(&target).expect("create CLI target dir");
         {
             // always reflects the current /repo source; concurrent checks serialise on the lock
